@@ -1,12 +1,13 @@
 import Driver.Proto
 import Driver.WW
 import Driver.Sim
+import Driver.Helpers
 open Lean
 
 namespace Driver
 
 def allHandlers : List (String × Handler) :=
-  Driver.WW.handlers ++ Driver.Sim.handlers
+  Driver.WW.handlers ++ Driver.Sim.handlers ++ Driver.Helpers.handlers
 
 def dispatch (line : String) : String :=
   match Json.parse line with
